@@ -94,32 +94,7 @@ def rule_row(ctx, M, u):
 
 
 def all_ready_tests(M, u):
-    """(all-site, true edges, false edges) for `state.iter().all(|s| s.is_ready())`"""
-    bi = u.bi
-    out = []
-    for s in bi.sites:
-        if s.callee.name != "all":
-            continue
-        it = s.arg(0)
-        cl = s.arg(1)
-        full = it is not None and it[0] == "call" and it[1][1] == "iter" and it[2] and it[2][0] == scan.self_field("state")
-        pred = False
-        if cl is not None and cl[0] == "agg" and cl[1][0] == "closure":
-            cb = M.by_cdef.get(cl[1][1])
-            if cb is not None:
-                ci = M.info(cb)
-                calls = [x for x in ci.sites if x.callee.owner == "PollState"]
-                rets = flow.returned_values(ci)
-                pred = len(calls) == 1 and calls[0].callee.name == "is_ready" and len(rets) == 1 and rets[0][3][0] == "call" and rets[0][3][3] == calls[0].block
-        te = bi.outcome_edges(s, True)
-        fe = bi.outcome_edges(s, False)
-        for e in bi.phi_tests_fed_by(s):
-            for lab, acc in ((True, te), (False, fe)):
-                ed = bi.edge(e, lab)
-                if ed:
-                    acc.append(ed)
-        out.append((s, te, fe, full, pred))
-    return out
+    return common.all_ready_tests(M, u.bi)
 
 
 def rule_emit(ctx, M, u):
